@@ -25,7 +25,7 @@ def worker(args):
         L = open(p).read().split("\n")
         L[lineno] = ""
         open(p, "w").write("\n".join(L))
-        b = subprocess.run(["go", "build", "./" + os.path.dirname(f) + "/"], cwd=cp, env=ENV, capture_output=True, text=True)
+        b = subprocess.run(["go", "build", "-o", os.devnull, "./" + os.path.dirname(f) + "/"], cwd=cp, env=ENV, capture_output=True, text=True)
         if b.returncode != 0:
             return (f, lineno + 1, text.strip(), "does-not-compile", "")
         for pr in props:
